@@ -174,6 +174,7 @@ func c17GenNameFacts() (string, string) {
 		{"c17_body_WithLoadOptions", funcBody(of, "", "WithLoadOptions")},
 		{"c17_body_loaderWithProfiles", funcBody(ldf, "", "WithProfiles")},
 		{"c17_body_HasProfile", funcBody(parse("types/project.go"), "ServiceConfig", "HasProfile")},
+		{"c17_body_LoadModel", funcBody(of, "ProjectOptions", "LoadModel")},
 		{"c17_body_ProjectWithProfiles", funcBody(parse("types/project.go"), "Project", "WithProfiles")},
 	} {
 		fmt.Fprintf(&b, "def %s : String := %s\n", e.name, leanStr(e.body))
